@@ -246,6 +246,12 @@ class MibCompiler(object):
                     brokenMibs = set()
 
                     for mibTree in mibTrees:
+                        if mibTree[0] in parsedMibs:
+                            # the copy that came first stays
+                            debug.logger & debug.flagCompiler and debug.logger(
+                                'ignoring another copy of %s found at %s' % (mibTree[0], source))
+                            continue
+
                         try:
                             mibInfo, symbolTable = self._symbolgen.genCode(
                                 mibTree, symbolTableMap
@@ -258,12 +264,6 @@ class MibCompiler(object):
                             # one broken module does not take the other
                             # modules of its file with it
                             exc_class, exc, tb = sys.exc_info()
-
-                            if mibTree[0] in parsedMibs:
-                                # a sound copy of this module is known already
-                                debug.logger & debug.flagCompiler and debug.logger(
-                                    'ignoring broken duplicate of %s found at %s: %s' % (mibTree[0], source, exc))
-                                continue
 
                             exc.source = source
                             exc.mibname = mibTree[0]
@@ -292,10 +292,13 @@ class MibCompiler(object):
                             if processed.get(mibname) == statusFailed:
                                 del processed[mibname]
 
-                        if mibInfo.name != mibname and mibInfo.name in failedMibs:
-                            # this module was asked for by its own name
-                            # before and could not be had then
+                        if mibInfo.name in failedMibs:
+                            # this module could not be had before: asked for
+                            # by its own name, or a broken copy of it precedes
+                            # this one in the file
                             del failedMibs[mibInfo.name]
+
+                            brokenMibs.discard(mibInfo.name)
 
                             if processed.get(mibInfo.name) in (statusFailed, statusMissing):
                                 del processed[mibInfo.name]
